@@ -77,6 +77,13 @@ class Ctx:
             return self._bins[key]
         src = os.path.join(VERIF, which)
         sumf = os.path.join(src, "go.sum")
+        if which == "harness-web":
+            sums = set()
+            for m in ("", "chi", "echo", "fiber", "gin", "http"):
+                with open(os.path.join(REPO, m, "go.sum")) as f:
+                    sums.update(l for l in f if l.strip())
+            with open(sumf, "w") as f:
+                f.write("".join(sorted(sums)))
         if which == "harness":
             shutil.copyfile(os.path.join(REPO, "go.sum"), sumf)
             lib = os.path.join(src, "libgen.go")
@@ -362,11 +369,11 @@ def scen_key(s):
 
 
 def run_family(ctx, family, scenarios, harness_mode, harness_args, trace_module, trace_consts,
-               shard_size=4000, tags="verif", kf_of=None, on_trace=None):
+               shard_size=4000, tags="verif", kf_of=None, on_trace=None, which="harness"):
     """scenarios -> harness -> traces -> TLC trace spec; violations appended to ctx.viol."""
     if not scenarios:
         return
-    binp = ctx.harness_bin(tags=tags)
+    binp = ctx.harness_bin(which=which, tags=tags)
     d = ctx.sub("fam-" + family)
     shards = shard(scenarios, shard_size)
     traces = []
@@ -432,7 +439,7 @@ def run_family(ctx, family, scenarios, harness_mode, harness_args, trace_module,
                         if ln == line:
                             evline = json.loads(txt)
                 ctx.viol.append(dict(property=tag, family=family, guard=guard, kf=kf, scenario=scen, event=evline,
-                                     harness_mode=harness_mode, harness_args=list(harness_args),
+                                     harness_mode=harness_mode, harness_args=list(harness_args), which=which,
                                      trace_module=trace_module, trace_consts=trace_consts,
                                      trace=[json.loads(t) for _, t in runs[ri]][:200] if ri is not None else None))
     ctx.traces += len(scenarios)
